@@ -470,6 +470,7 @@ def configs(draw, spec, force=(), forbid=(), p_on=0.5, params=True, split=True, 
     eid = spec.get("ident", "E")
     used_names = set(m.idents) | {eid, eid + "Iter", eid + "Names"}
     fn_names = []
+    struct_used = set()
     feats = []
     enum_vis = spec.get("vis", "pub")
     for f in chosen:
@@ -503,8 +504,9 @@ def configs(draw, spec, force=(), forbid=(), p_on=0.5, params=True, split=True, 
         if params and struct_names and f in E.STRUCT_FEATURES and chance(draw, 0.2):
             sn = draw(st.sampled_from(["My%sStruct" % f.capitalize(), "It_%s" % f, "Σ%s" % f.capitalize()] + fn_names[-1:]))
             # a struct (type namespace, module level) may share its name with an associated fn / const of the enum
-            if sn not in used_names or sn in fn_names:
+            if (sn not in used_names or sn in fn_names) and sn not in struct_used:
                 used_names.add(sn)
+                struct_used.add(sn)
                 ps.append(["struct_name", sn])
         if len(ps) > 1 and draw(st.booleans()):
             ps = list(draw(st.permutations(ps)))
